@@ -872,6 +872,26 @@ impl<'a> Hist<'a> {
                 .filter(|c| c.cdh.coin_data.denom == Denom::Mel && c.cdh.coin_data.value.0 >= 200_000_000 && c.cdh.coin_data.value.0 < (1 << 100)
                     && matches!(c.spec, CovSpec::StdNew(_) | CovSpec::AlwaysTrue))
                 .collect();
+            // several (faucet, over-spender) pairs in a row, 2, 4 or 8 of them: however rayon halves the slice, down to
+            // leaves of two, each over-spender is validated right after "its" faucet by the same worker
+            if usable.len() >= 4 && r.chance(2, 3) {
+                let dest = self.wallet.spec_addr(CovSpec::StdNew(0));
+                let k = if usable.len() >= 16 { 8 } else if usable.len() >= 8 { 4 } else { 2 };
+                let fee = 50_000_000u128;
+                let mut v = vec![];
+                for i in 0..k {
+                    let (cf, ct) = (usable[2 * i].clone(), usable[2 * i + 1].clone());
+                    let fv = cf.cdh.coin_data.value.0;
+                    let faucet = assemble(&self.wallet, TxKind::Faucet, &[cf], vec![crate::txgen::out(dest, 1000 + i as u128, Denom::Mel)], fee, r.bytes(5));
+                    let over = assemble(&self.wallet, TxKind::Normal, &[ct.clone()], vec![crate::txgen::out(dest, ct.cdh.coin_data.value.0 - fee + fv, Denom::Mel)], fee, vec![8, i as u8]);
+                    self.w.names.reg_tx(&faucet);
+                    self.w.names.reg_tx(&over);
+                    v.push(faucet);
+                    v.push(over);
+                }
+                self.bump("batch:over-spenders-paired-with-faucets-with-inputs");
+                return (v, "over-spenders-paired-with-faucets-with-inputs".into());
+            }
             if usable.len() >= 3 {
                 let dest = self.wallet.spec_addr(CovSpec::StdNew(0));
                 let (cp, cf, ct) = (usable[0].clone(), usable[1].clone(), usable[2].clone());
